@@ -150,6 +150,12 @@ def settle(run, drv, expected_by_case):
 def run(tier, seed, replay=None):
     run = Run("C05", tier, seed, RULE)
     drv = Driver()
+
+    def still_fails(c):
+        probe = Run("C05", tier, seed, RULE)
+        run_case(probe, Driver(), dict(c))
+        return any(f.kind == "impl-vs-spec" for f in probe.failures)
+    run.shrinker = still_fails
     exp = {}
     from harness.common import corpus_cases
     cases = [replay["case"]] if replay else corpus_cases("C05") + \
